@@ -38,7 +38,15 @@ PROP = {'title': 'Random wrappers are transparent and stay within the requested 
          '(0.1L, 0.7L, 1/3.0L, 1+2^-60, 2^70+1) next to dyadic ones; seed-independent round-trip cases roundtrip<class<type>>(a, b): '
          'parameters -> convert_from -> convert_to -> convert_from, param() and param() after param(set) carry exactly the given values, '
          'for all pairs of a boundary list per type (integers: min, min+1, min/2, -8..8, max/2, max-1, max; reals: lowest, lowest/2, '
-         '+-denorm_min, +-min, epsilon, 0.1, 1/3, 0.7, 1, 1+epsilon, 1+2^-60, 2^70+1, max/2, max; enums: every enumerator); three variates sharing one generator; param() setter between draws; the raw generators (1300 draws, seed and '
+         '+-denorm_min, +-min, epsilon, 0.1, 1/3, 0.7, 1, 1+epsilon, 1+2^-60, 2^70+1, max/2, max; enums: every enumerator); user-defined result types with their own type_iso::transform that are also constructible from their base type with '
+         'another meaning (24.8 fixed point over int and a strong typedef of it through uniform_int over all intervals and the limit '
+         'intervals; ratio<double>, ratio<long double> through uniform_real / normal); container histories '
+         'container_history<container,engine>(size, modification, factory, seed): build the wrapper on a container of size 1..6 '
+         '(vector<int>, const vector<int>, const vector<string>, deque<int>, string), draw, then modify the container (nothing / '
+         'overwrite in place / push_back within capacity / push_back past capacity after shrinking the capacity / grow, resize back, '
+         'shrink_to_fit / assign same size / swap with an equal-size container / push_front for deque) and draw 10 values each from the '
+         'wrapper, a copy made before, a copy made after, a variate made before and a variate made after the modification: every drawn '
+         'reference must be the address of the current container[i] for the std index i; three variates sharing one generator; param() setter between draws; the raw generators (1300 draws, seed and '
          'seed_seq constructors). Every distribution case also checks the param() getter (fresh, after per-call draws, after '
          'param(set)) and Parameters::convert_to(std distribution) through convert_from(), and runs the histories: k=0..3 direct draws, '
          'then variate(gen,d), make_variate(gen,d), variate(gen,d.param()) draw 6 values each and d itself continues; after 1 and 3 '
@@ -56,7 +64,14 @@ PROP = {'title': 'Random wrappers are transparent and stay within the requested 
                  'closed-interval bounds and reaching both ends are asserted for integer and enum distributions only (statement); '
                  'uniform_real and normal are compared bit-exactly with std::',
                  'char-sized result types are not instantiated (std::uniform_int_distribution does not support them)',
-                 'type_iso::boost_units result types and user-defined type_iso::transform specialisations are not covered',
+                 'type_iso::boost_units result types are not covered',
+                 'the property names "strong-typedef or enum" result types; both are instances of the type_iso::transform mechanism '
+                 '(undecorate the parameters, decorate every draw). The user-defined result types (fixed24_8, ratio<F>) check the same '
+                 're-wrapping mechanism with a third, user-defined instance whose constructor from the base type means something else '
+                 'than decorate(), so that a shortcut around type_iso is visible',
+                 'uniform_container: the container may be modified between draws as long as the index range it had when the wrapper '
+                 'was constructed stays valid; shrinking below that range is outside the contract and not exercised. std::list is '
+                 'covered for make_uniform_indices only (uniform_container needs operator[])',
                  'stream operators << and >> of distribution::basic are outside the statement and not checked',
                  'the parameter classes have no accessors: parameters read back by param() / convert_to() are observed through '
                  'convert_from() (itself checked against the numbers put in via distribution().param()) and by drawing from a '
